@@ -102,15 +102,18 @@ def parseBase1 (j : Json) : Except String (tower flDouble 1).σ := do
   | .ok _ => pure (Sum.inr (← parseNode1 j))
   | .error _ => pure (Sum.inl (← parseLeaf j))
 
+/-- dumps are rounded to doubles (the exact rationals of a whole history have thousands of digits) -/
+def ratToJsonF (x : Rat) : Json := ratToJson (flDouble x)
+
 def leafDump (l : Leaf) : Json :=
   match l.L.kind with
-  | .eps st => obj [("Q", ofList (fun (p : Act × Rat) => Json.arr #[ofNat p.1, ratToJson p.2]) st.Q)]
+  | .eps st => obj [("Q", ofList (fun (p : Act × Rat) => Json.arr #[ofNat p.1, ratToJsonF p.2]) st.Q)]
   | .ucb st => obj [("t", ofNat st.t)]
   | _ => Json.null
 
 def node1Dump (n : CNode Leaf) : Json :=
-  obj [("ps", ofList ratToJson n.c.ps), ("pbars", ofList ratToJson n.c.pbars), ("lastActs", ofList ofNat n.lastActs),
-       ("lastProbs", ofList ratToJson n.lastProbs), ("leaves", ofList leafDump n.bases)]
+  obj [("ps", ofList ratToJsonF n.c.ps), ("pbars", ofList ratToJsonF n.c.pbars), ("lastActs", ofList ofNat n.lastActs),
+       ("lastProbs", ofList ratToJsonF n.lastProbs), ("leaves", ofList leafDump n.bases)]
 
 def base1Dump (b : (tower flDouble 1).σ) : Json :=
   match b with
@@ -118,8 +121,8 @@ def base1Dump (b : (tower flDouble 1).σ) : Json :=
   | Sum.inr n => node1Dump n
 
 def topDump (n : CNode (tower flDouble 1).σ) : Json :=
-  obj [("ps", ofList ratToJson n.c.ps), ("pbars", ofList ratToJson n.c.pbars), ("lastActs", ofList ofNat n.lastActs),
-       ("lastProbs", ofList ratToJson n.lastProbs), ("bases", ofList base1Dump n.bases)]
+  obj [("ps", ofList ratToJsonF n.c.ps), ("pbars", ofList ratToJsonF n.c.pbars), ("lastActs", ofList ofNat n.lastActs),
+       ("lastProbs", ofList ratToJsonF n.lastProbs), ("bases", ofList base1Dump n.bases)]
 
 /-- a whole history on `tower flDouble 2` -/
 def towerRun : (tower flDouble 2).σ → List Json → Except String (List Json)
@@ -133,7 +136,7 @@ def towerRun : (tower flDouble 2).σ → List Json → Except String (List Json)
       | .error e => pure [obj [("err", Json.str (errName e))]]
       | .ok (s', a, p) => do
         let more ← towerRun s' rest
-        pure (obj [("a", ofNat a), ("p", ratToJson p), ("dump", dump s')] :: more)
+        pure (obj [("a", ofNat a), ("p", ratToJsonF p), ("dump", dump s')] :: more)
     | "learn" =>
       match (tower flDouble 2).learn s (← nat (← field opj "a")) (← ratOfJson (← field opj "r")) (← ratOfJson (← field opj "p")) with
       | .error e => pure [obj [("err", Json.str (errName e))]]
@@ -141,6 +144,36 @@ def towerRun : (tower flDouble 2).σ → List Json → Except String (List Json)
         let more ← towerRun s' rest
         pure (obj [("dump", dump s')] :: more)
     | _ => throw s!"unknown op {name}"
+
+def parseScalar (j : Json) : Except String Scalar := do
+  match (← arr j) with
+  | [t, v] =>
+    match (← str t) with
+    | "n" => pure (.num (← ratOfJson v))
+    | "s" => pure (.str (← str v))
+    | x => throw s!"scalar tag {x}"
+  | _ => throw "scalar expected"
+
+def parsePyAct (j : Json) : Except String PyAct := do
+  match (← arr j) with
+  | [t, v] => do
+    let _ ← str t
+    pure (.scalar (← parseScalar (Json.arr #[t, v])))
+  | [t, f, v] =>
+    match (← str t) with
+    | "D" =>
+      let fl ← match (← str f) with
+        | "list" => pure DFlav.list | "tuple" => pure DFlav.tuple | "row" => pure DFlav.row | x => throw s!"dense flavour {x}"
+      pure (.dense fl (← (← arr v).mapM parseScalar))
+    | "S" =>
+      let fl ← match (← str f) with
+        | "dict" => pure SFlav.dict | "odict" => pure SFlav.odict | "mapping" => pure SFlav.mapping | x => throw s!"sparse flavour {x}"
+      pure (.sparse fl (← (← arr v).mapM (fun p => do
+        match (← arr p) with
+        | [k, w] => pure (← parseScalar k, ← parseScalar w)
+        | _ => throw "item expected")))
+    | x => throw s!"action tag {x}"
+  | _ => throw "action expected"
 
 def handle (req : Json) : Except String Json := do
   let kind ← str (← field req "kind")
@@ -215,6 +248,13 @@ def handle (req : Json) : Except String Json := do
       { mis := ← (← arr (fieldD nodej "mis" (Json.arr #[]))).mapM ratPair, c := ← parseCorralInit (← field nodej "corral"),
         bases := ← (← arr (← field nodej "bases")).mapM parseBase1 }
     pure (obj [("outs", Json.arr (← towerRun (Sum.inr top) (← arr (← field req "hist"))).toArray)])
+  | "keyeq" =>
+    let pairs ← (← arr (← field req "pairs")).mapM (fun p => do
+      match (← arr p) with
+      | [a, b] => pure (← parsePyAct a, ← parsePyAct b)
+      | _ => throw "pair expected")
+    pure (obj [("res", ofList (fun (p : PyAct × PyAct) =>
+      Json.arr #[Json.bool (Key.same (makeHashable p.1) (makeHashable p.2)), Json.bool (pyEq p.1 p.2)]) pairs)])
   | "fl" =>
     pure (obj [("fl", ofList ratToJson ((← ratList (← field req "xs")).map flDouble))])
   | _ => throw s!"unknown kind {kind}"
